@@ -76,7 +76,8 @@ theorem read_n_spec (r : RunSt) (n : Nat) (t : Option Nat) (hg : Good r.st) :
     | ok b =>
       obtain ⟨hb1, hb2⟩ := hok b rfl
       simp only [Spec.c03, Spec.delivered, hreads, Cfg.ofRun, filterMap_data]
-      simp [hb1 ▸ hb2, ← hb1, ← hch0, hb]
+      simp [← hb1, ← hch0, hb]
+      exact hb2
     | error e =>
       obtain ⟨hkind, hto⟩ := herr e rfl
       simp only [Spec.c03, Spec.delivered, hreads, Cfg.ofRun, filterMap_data, ← hch0, hb, Bool.and_true]
@@ -86,6 +87,11 @@ theorem read_n_spec (r : RunSt) (n : Nat) (t : Option Nat) (hg : Good r.st) :
       · have := hto (Or.inr rfl); unfold total at this
         simp only [Bool.or_eq_true, decide_eq_true_eq, beq_iff_eq]; exact this
       · unfold total at htot; simpa using htot
+
+theorem leOpt_of (n : Nat) (o : Option Nat) (h : ∀ m, o = some m → n ≤ m) : leOpt n o = true := by
+  cases o with
+  | none => rfl
+  | some m => simpa [leOpt] using h m rfl
 
 theorem readIter_spec (r : RunSt) (m : Option Nat) (t : Option Nat) (k : Option Nat) (hg : Good r.st) :
     Spec.c03 (Cfg.ofRun r) (.readIter m t k) (obsOp (.readIter m t k) r).1 = true := by
@@ -109,28 +115,28 @@ theorem readIter_spec (r : RunSt) (m : Option Nat) (t : Option Nat) (k : Option 
     simp only at hreads hlen
     obtain ⟨cs, e⟩ := res
     simp only [Spec.c03, Spec.delivered, hreads, Cfg.ofRun, filterMap_data, ← hch0, hb, Bool.and_true]
-    have hmaxok : (match m with | some m' => decide ((dataOf recs).flatten.length ≤ m') | none => true) = true := by
-      cases m with
-      | none => rfl
-      | some m' => have := hm m' rfl; unfold total at this; simpa using this
-    have hkok : (match k with | some k' => decide (cs.length ≤ k') | none => true) = true := by
-      cases k with
-      | none => rfl
-      | some k' => have := hlen k' rfl; simpa using this
+    have hmaxok : ∀ m', m = some m' → (dataOf recs).flatten.length ≤ m' := by
+      intro m' h; have := hm m' h; unfold total at this; omega
+    have hkok : ∀ k', k = some k' → cs.length ≤ k' := by
+      intro k' h; have := hlen k' h; simpa using this
     cases e with
     | none =>
       obtain ⟨hcs, _, _⟩ := hok cs rfl
       simp only [List.nil_append] at hcs
-      simp [hcs, hmaxok, ← hcs, hkok]
+      subst hcs
+      simp only [yielded, beq_self_eq_true, Bool.true_and, leOpt_of _ _ hmaxok, leOpt_of _ _ hkok, Bool.and_self]
     | some e =>
       obtain ⟨hkind, hto, hde⟩ := herr cs e rfl
       rcases hkind with rfl | rfl | ⟨x, mm, rfl⟩
       · have := (hto (Or.inl rfl)).1; simp only [List.nil_append] at this
-        simp [this, hmaxok, ← this, hkok]
+        subst this
+        simp only [yielded, beq_self_eq_true, Bool.true_and, leOpt_of _ _ hmaxok, leOpt_of _ _ hkok, Bool.and_self]
       · have := (hto (Or.inr rfl)).1; simp only [List.nil_append] at this
-        simp [this, hmaxok, ← this, hkok]
+        subst this
+        simp only [yielded, beq_self_eq_true, Bool.true_and, leOpt_of _ _ hmaxok, leOpt_of _ _ hkok, Bool.and_self]
       · have := (hde x mm rfl).1; simp only [List.nil_append] at this
-        simp [this, hmaxok, ← this, hkok]
+        subst this
+        simp only [yielded, beq_self_eq_true, Bool.true_and, leOpt_of _ _ hmaxok, leOpt_of _ _ hkok, Bool.and_self]
 
 theorem readline_spec (r : RunSt) (e : Bytes) (t : Option Nat) (hg : Good r.st) :
     Spec.c03 (Cfg.ofRun r) (.readline e t) (obsOp (.readline e t) r).1 = true := by
@@ -163,5 +169,243 @@ theorem readline_spec (r : RunSt) (e : Bytes) (t : Option Nat) (hg : Good r.st) 
       · exact hto (Or.inl rfl)
       · exact hto (Or.inr rfl)
       · rfl
+
+theorem allLe_of {ws : List (Bytes × Nat)} {n : Nat} (h : ∀ w ∈ ws, w.1.length ≤ n) :
+    (ws.all fun w => decide (w.1.length ≤ n)) = true := by
+  simp only [List.all_eq_true, decide_eq_true_eq]; exact h
+
+theorem write_op_spec (r : RunSt) (b : Bytes) (ign : Bool) (hg : Good r.st) :
+    Spec.c03 (Cfg.ofRun r) (.write b ign) (obsOp (.write b ign) r).1 = true
+    ∧ Spec.c03Sizes (Cfg.ofRun r) (.write b ign) (obsOp (.write b ign) r).1 = true := by
+  unfold obsOp runOp ofUnit
+  simp only
+  generalize hs0 : ({ r.st with reads := [], writes := [], fwd := [] } : St) = s0
+  have hw0 : s0.writes = [] := by subst hs0; rfl
+  have hbl : s0.blacklist = r.st.blacklist := by subst hs0; rfl
+  have hsd : s0.slowDelay = r.st.slowDelay := by subst hs0; rfl
+  have hsc : s0.slowChunk = r.st.slowChunk := by subst hs0; rfl
+  have hg0 : Good s0 := by subst hs0; exact hg.cut
+  obtain ⟨ws, hf, hl, hs, hok, herr⟩ := write_spec b ign s0 hg0.slow
+  have hwrites : (write b ign s0).2.writes = ws := by rw [hf.writes, hw0]; rfl
+  cases hr : write b ign s0 with
+  | mk res s1 =>
+    rw [hr] at hwrites hok herr
+    simp only at hwrites
+    cases res with
+    | ok u =>
+      obtain ⟨hfine, ht, ha⟩ := hok rfl
+      constructor
+      · simp only [Spec.c03, Cfg.ofRun, hwrites, ← hbl, ← hsd, ← hsc, ht, ha, beq_self_eq_true, Bool.and_true]
+        rcases hfine with h | h
+        · simp [h]
+        · simp [h]
+      · simp only [Spec.c03Sizes, Cfg.ofRun, hwrites, ← hsd, ← hsc, Bool.and_true]
+        cases hd : s0.slowDelay with
+        | none => rfl
+        | some d => exact allLe_of (hs (by rw [hd]; rfl))
+    | error e =>
+      obtain ⟨he, hi, hfb, hws⟩ := herr e rfl
+      subst he; subst hws
+      constructor
+      · simp [Spec.c03, Cfg.ofRun, hwrites, ← hbl, hi, hfb]
+      · simp only [Spec.c03Sizes, Cfg.ofRun, hwrites, Bool.and_true]
+        cases r.st.slowDelay <;> rfl
+
+/-- `Channel.send` on any state: what reached the transport -/
+theorem send_spec (b : Bytes) (rb : Bool) (t : Option Nat) (ign : Bool) (s : St) (hg : Good s) :
+    ∃ recs ws, IOFrame s (send b rb t ign s).2 recs ws
+      ∧ (∀ w ∈ ws, w.1.length ≤ s.slice)
+      ∧ (s.slowDelay.isSome → ∀ w ∈ ws, w.1.length ≤ s.slowChunk)
+      ∧ (let fine := ign || !forbidden s.blacklist b
+         match (send b rb t ign s).1 with
+         | .ok _ => fine = true ∧ accepted ws = b
+         | .error .illegal => fine = false ∧ ws = []
+         | .error e => fine = true ∧ (∃ rest, b = accepted ws ++ rest)
+                        ∧ (e = .timeout ∨ e = .hang ∨ ∃ x m, e = .death x m)) := by
+  unfold send
+  split
+  · rename_i he
+    have : b = [] := by simpa using he
+    subst this
+    refine ⟨[], [], IOFrame.refl s, by simp, by simp, ?_⟩
+    simp [forbidden, accepted]
+  · split
+    · rename_i _ hf
+      simp only [Bool.and_eq_true, Bool.not_eq_true'] at hf
+      refine ⟨[], [], IOFrame.refl s, by simp, by simp, ?_⟩
+      simp [hf.1, hf.2]
+    · rename_i _ hnf
+      have hfine : (ign || !forbidden s.blacklist b) = true := by
+        cases ign with
+        | true => rfl
+        | false => simpa using hnf
+      obtain ⟨recs, ws, hfr, ⟨rest, hrest, hrok⟩, hwl, hws, _, herr⟩ :=
+        sendLoop_spec (b.length + 1) b rb t ign s.now s (by omega) hg.slice hg.wf hg.chunk hg.slow
+      refine ⟨recs, ws, hfr, hwl, hws, ?_⟩
+      simp only [hfine]
+      cases hr : sendLoop (b.length + 1) b rb t ign s.now s with
+      | mk res s1 =>
+        rw [hr] at hrok herr
+        cases res with
+        | ok u =>
+          have := hrok rfl
+          subst this
+          simp only [List.append_nil] at hrest
+          exact ⟨trivial, hrest.symm⟩
+        | error e =>
+          rcases herr e rfl with ⟨h1, h2, h3⟩ | h
+          · exfalso
+            rw [h2] at hfine
+            simp [h3] at hfine
+          · rcases h with rfl | rfl | ⟨x, m, rfl⟩
+            · exact ⟨trivial, ⟨rest, hrest⟩, Or.inl rfl⟩
+            · exact ⟨trivial, ⟨rest, hrest⟩, Or.inr (Or.inl rfl)⟩
+            · exact ⟨trivial, ⟨rest, hrest⟩, Or.inr (Or.inr ⟨x, m, rfl⟩)⟩
+
+theorem isPrefixOf_append (a rest : Bytes) : a.isPrefixOf (a ++ rest) = true := by
+  rw [List.isPrefixOf_iff_prefix]; exact List.prefix_append a rest
+
+/-- shared by `send` and `sendline`: the observation of `send payload rb t ign` judged against
+    the request `payload` -/
+theorem send_obs (r : RunSt) (payload : Bytes) (rb : Bool) (t : Option Nat) (ign : Bool) (hg : Good r.st) :
+    let s0 : St := { r.st with reads := [], writes := [], fwd := [] }
+    let res := ofUnit (send payload rb t ign s0)
+    let fine := ign || !forbidden r.st.blacklist payload
+    (match res.1 with
+     | .unit => fine && accepted res.2.writes == payload
+     | .err .illegal => !fine && (accepted res.2.writes).isPrefixOf payload
+                          && !forbidden r.st.blacklist (accepted res.2.writes)
+     | .err _ => fine && (accepted res.2.writes).isPrefixOf payload
+     | _ => false) = true
+    ∧ (match r.st.slowDelay with
+       | some _ => res.2.writes.all fun w => decide (w.1.length ≤ r.st.slowChunk)
+       | none => true) = true
+    ∧ (res.2.writes.all fun w => decide (w.1.length ≤ r.st.slice)) = true := by
+  intro s0 res fine
+  have hg0 : Good s0 := hg.cut
+  obtain ⟨recs, ws, hfr, hwl, hws, hres⟩ := send_spec payload rb t ign s0 hg0
+  have hwrites : (send payload rb t ign s0).2.writes = ws := by rw [hfr.writes]; rfl
+  have hresw : res.2.writes = ws := by
+    show (ofUnit (send payload rb t ign s0)).2.writes = ws
+    unfold ofUnit
+    cases hs : send payload rb t ign s0 with
+    | mk a b => rw [hs] at hwrites; cases a <;> exact hwrites
+  refine ⟨?_, ?_, ?_⟩
+  · rw [hresw]
+    show (match (ofUnit (send payload rb t ign s0)).1 with
+     | .unit => fine && accepted ws == payload
+     | .err .illegal => !fine && (accepted ws).isPrefixOf payload && !forbidden r.st.blacklist (accepted ws)
+     | .err _ => fine && (accepted ws).isPrefixOf payload
+     | _ => false) = true
+    unfold ofUnit
+    simp only at hres
+    cases hs : send payload rb t ign s0 with
+    | mk a b =>
+      rw [hs] at hres
+      cases a with
+      | ok u =>
+        simp only at hres ⊢
+        have h1 : fine = true := hres.1
+        simp [h1, hres.2]
+      | error e =>
+        cases e with
+        | illegal =>
+          simp only at hres ⊢
+          have h1 : fine = false := hres.1
+          rw [hres.2]
+          simp [h1, accepted, forbidden]
+        | timeout =>
+          simp only at hres ⊢
+          obtain ⟨h1, ⟨rest, hrest⟩, _⟩ := hres
+          have h1' : fine = true := h1
+          rw [h1', hrest]; simp [isPrefixOf_append]
+        | hang =>
+          simp only at hres ⊢
+          obtain ⟨h1, ⟨rest, hrest⟩, _⟩ := hres
+          have h1' : fine = true := h1
+          rw [h1', hrest]; simp [isPrefixOf_append]
+        | death x m =>
+          simp only at hres ⊢
+          obtain ⟨h1, ⟨rest, hrest⟩, _⟩ := hres
+          have h1' : fine = true := h1
+          rw [h1', hrest]; simp [isPrefixOf_append]
+        | assertion =>
+          simp only at hres
+          obtain ⟨_, _, h⟩ := hres
+          rcases h with h | h | ⟨_, _, h⟩ <;> simp at h
+        | fuel =>
+          simp only at hres
+          obtain ⟨_, _, h⟩ := hres
+          rcases h with h | h | ⟨_, _, h⟩ <;> simp at h
+  · rw [hresw]
+    cases hd : r.st.slowDelay with
+    | none => rfl
+    | some d => exact allLe_of (hws (by show r.st.slowDelay.isSome = true; rw [hd]; rfl))
+  · rw [hresw]; exact allLe_of hwl
+
+theorem send_op_spec (r : RunSt) (b : Bytes) (rb : Bool) (t : Option Nat) (ign : Bool) (hg : Good r.st) :
+    Spec.c03 (Cfg.ofRun r) (.send b rb t ign) (obsOp (.send b rb t ign) r).1 = true
+    ∧ Spec.c03Sizes (Cfg.ofRun r) (.send b rb t ign) (obsOp (.send b rb t ign) r).1 = true := by
+  obtain ⟨h1, h2, h3⟩ := send_obs r b rb t ign hg
+  simp only at h1 h2 h3
+  unfold obsOp runOp
+  simp only [Spec.c03, Spec.c03Sizes, Cfg.ofRun]
+  refine ⟨h1, ?_⟩
+  simp only [Bool.and_eq_true]
+  exact ⟨h2, h3⟩
+
+theorem sendline_op_spec (r : RunSt) (b : Bytes) (rb : Bool) (t : Option Nat) (hg : Good r.st) :
+    Spec.c03 (Cfg.ofRun r) (.sendline b rb t) (obsOp (.sendline b rb t) r).1 = true
+    ∧ Spec.c03Sizes (Cfg.ofRun r) (.sendline b rb t) (obsOp (.sendline b rb t) r).1 = true := by
+  obtain ⟨h1, h2, h3⟩ := send_obs r (b ++ [13]) rb t false hg
+  simp only [Bool.false_or] at h1 h2 h3
+  unfold obsOp runOp sendline
+  simp only [Spec.c03, Spec.c03Sizes, Cfg.ofRun]
+  refine ⟨h1, ?_⟩
+  simp only [Bool.and_eq_true]
+  exact ⟨h2, h3⟩
+
+theorem sendcontrol_op_spec (r : RunSt) (n : Nat) (hg : Good r.st) :
+    Spec.c03 (Cfg.ofRun r) (.sendcontrol n) (obsOp (.sendcontrol n) r).1 = true := by
+  unfold obsOp runOp ofUnit sendcontrol
+  simp only
+  generalize hs0 : ({ r.st with reads := [], writes := [], fwd := [] } : St) = s0
+  have hw0 : s0.writes = [] := by subst hs0; rfl
+  have hg0 : Good s0 := by subst hs0; exact hg.cut
+  by_cases hn : n ≤ 31
+  · simp only [hn, if_true]
+    obtain ⟨ws, hf, _, _, hok, herr⟩ := write_spec [UInt8.ofNat n] true s0 hg0.slow
+    have hwrites : (write [UInt8.ofNat n] true s0).2.writes = ws := by rw [hf.writes, hw0]; rfl
+    cases hr : write [UInt8.ofNat n] true s0 with
+    | mk res s1 =>
+      rw [hr] at hwrites hok herr
+      simp only at hwrites
+      cases res with
+      | ok u =>
+        obtain ⟨_, _, ha⟩ := hok rfl
+        simp [Spec.c03, hwrites, ha, hn]
+      | error e =>
+        obtain ⟨_, hi, _, _⟩ := herr e rfl
+        simp at hi
+  · simp only [hn, if_false, Spec.c03, hw0]
+    have : 31 < n := by omega
+    simp [accepted, this]
+
+/-- **C03 (per call).**  Every raw I/O operation on every channel state satisfies the
+    specification (other operations are not constrained by C03). -/
+theorem op_spec (r : RunSt) (op : Op) (hg : Good r.st) :
+    Spec.c03 (Cfg.ofRun r) op (obsOp op r).1 = true ∧ Spec.c03Sizes (Cfg.ofRun r) op (obsOp op r).1 = true := by
+  cases op with
+  | read n t =>
+    cases n with
+    | none => exact ⟨read_none_spec r t hg, rfl⟩
+    | some n => exact ⟨read_n_spec r n t hg, rfl⟩
+  | readIter m t k => exact ⟨readIter_spec r m t k hg, rfl⟩
+  | readline e t => exact ⟨readline_spec r e t hg, rfl⟩
+  | write b ign => exact write_op_spec r b ign hg
+  | send b rb t ign => exact send_op_spec r b rb t ign hg
+  | sendline b rb t => exact sendline_op_spec r b rb t hg
+  | sendcontrol n => exact ⟨sendcontrol_op_spec r n hg, rfl⟩
+  | _ => exact ⟨rfl, rfl⟩
 
 end C03
